@@ -356,17 +356,19 @@ class WaitIterator:
 
         if kwargs:
             self._unfinished = {f: k for (k, f) in kwargs.items()}
-            futures: Sequence[Future] = list(kwargs.values())
         else:
             self._unfinished = {f: i for (i, f) in enumerate(args)}
-            futures = args
 
         self._finished: collections.deque[Future] = collections.deque()
         self.current_index: str | int | None = None
         self.current_future: Future | None = None
         self._running_future: Future | None = None
 
-        for future in futures:
+        # _unfinished is keyed by future, so a future passed more than once
+        # has a single entry; register one callback per distinct future
+        # (as multi() does) so that it is yielded once and done() becomes
+        # true, instead of a second callback popping a missing key.
+        for future in list(self._unfinished):
             future_add_done_callback(future, self._done_callback)
 
     def done(self) -> bool:
